@@ -143,13 +143,25 @@ type chainLevel struct {
 	link, peer []byte
 	iid, rid   []byte // nil = absent
 	t          byte
+	hop        byte
 }
 
 func (r *Run) genForwChain(depth int, m dhcpv6.DHCPv6, w []byte) (dhcpv6.DHCPv6, []byte, []chainLevel) {
 	var lvs []chainLevel
+	// the hop count is a header octet each relay sets; usually the number of relays below it, but relays that do not
+	// count (all zero), count from one, or carry anything at all are on real networks, and nothing may depend on it
+	hopMode := r.Pick(0, 0, 0, 1, 2, 3)
 	for i := 0; i < depth; i++ {
-		lv := chainLevel{link: r.Addr16(), peer: r.Addr16(), t: 12}
-		rm := &dhcpv6.RelayMessage{MessageType: 12, HopCount: byte(i), LinkAddr: net.IP(lv.link), PeerAddr: net.IP(lv.peer)}
+		lv := chainLevel{link: r.Addr16(), peer: r.Addr16(), t: 12, hop: byte(i)}
+		switch hopMode {
+		case 1:
+			lv.hop = 0
+		case 2:
+			lv.hop = byte(i + 1)
+		case 3:
+			lv.hop = byte(r.n8())
+		}
+		rm := &dhcpv6.RelayMessage{MessageType: 12, HopCount: lv.hop, LinkAddr: net.IP(lv.link), PeerAddr: net.IP(lv.peer)}
 		var ow []byte
 		order := r.Rng.Intn(2)
 		addIID := func() {
@@ -175,7 +187,7 @@ func (r *Run) genForwChain(depth int, m dhcpv6.DHCPv6, w []byte) (dhcpv6.DHCPv6,
 			addIID()
 		}
 		addRID()
-		m, w = rm, append(append(append([]byte{12, byte(i)}, lv.link...), lv.peer...), ow...)
+		m, w = rm, append(append(append([]byte{12, lv.hop}, lv.link...), lv.peer...), ow...)
 		lvs = append([]chainLevel{lv}, lvs...) // outermost first
 	}
 	return m, w, lvs
@@ -296,7 +308,7 @@ func genC16(r *Run) {
 			if rm.MessageType != dhcpv6.MessageTypeRelayReply || !bytes.Equal(rm.LinkAddr, lv.link) || !bytes.Equal(rm.PeerAddr, lv.peer) {
 				r.Fail("relay-repl-addresses", trunc(cs, 2000), fmt.Sprintf("level %d", li))
 			}
-			if int(rm.HopCount) != len(lvs)-1-li {
+			if int(rm.HopCount) != len(lvs)-1-li { // rebuilt with EncapsulateRelay: the level's index, whatever the forward chain carried
 				r.Fail("relay-repl-hop", trunc(cs, 2000), fmt.Sprintf("level %d hop %d", li, rm.HopCount))
 			}
 			if got := rm.Options.InterfaceID(); !bytes.Equal(got, lv.iid) {
